@@ -570,6 +570,11 @@ def discrete_SIR(G, test_transmission=_simple_test_transmission_, args=(), test_
         initial_infecteds=[initial_infecteds]
     #else it is assumed to be a list of nodes.
 
+    if initial_recovereds is None:
+        initial_recovereds = []
+    elif G.has_node(initial_recovereds):
+        initial_recovereds = [initial_recovereds]
+
     if return_full_data:
         node_history = defaultdict(lambda : ([tmin], ['S']))
         transmissions = []
@@ -582,9 +587,9 @@ def discrete_SIR(G, test_transmission=_simple_test_transmission_, args=(), test_
     
     N=G.order()
     t = [tmin]
-    S = [N-len(initial_infecteds)]
+    S = [N-len(initial_infecteds)-len(initial_recovereds)]
     I = [len(initial_infecteds)]
-    R = [0]
+    R = [len(initial_recovereds)]
     
     susceptible = defaultdict(lambda: True)  
     #above line is equivalent to u.susceptible=True for all nodes.
@@ -596,10 +601,10 @@ def discrete_SIR(G, test_transmission=_simple_test_transmission_, args=(), test_
             susceptible[u] = False
         
     infecteds = set(initial_infecteds)
-    totR= 0
+    totR= len(initial_recovereds)
     nI = len(initial_infecteds)
-    nR = 0
-    nS = N - nI
+    nR = len(initial_recovereds)
+    nS = N - nI - nR
     
     while infecteds and t[-1]<tmax:
         new_infecteds = set()
